@@ -213,6 +213,15 @@ func c12Run(c c12Case) (violationKey, what, reached string) {
 		pats = []string{"a.yaml"}
 		pats = append(pats, c.Patterns...)
 	}
+	if c.Shape%5 == 4 {
+		// directory entries a wildcard can match that are no regular files: a dangling link, a link to itself, a link to a
+		// directory, a link through a regular file (stat fails on them although Glob lists them)
+		_ = os.Symlink("nowhere.yaml", filepath.Join(dir, "dangling.yaml"))
+		_ = os.Symlink("loop.yaml", filepath.Join(dir, "loop.yaml"))
+		_ = os.Symlink("out", filepath.Join(dir, "dirlink.yaml"))
+		_ = os.Symlink("a.yaml/x", filepath.Join(dir, ".#a.yaml"))
+		_ = os.MkdirAll(filepath.Join(dir, "sub.yaml"), 0o755)
+	}
 	if c.Shape%5 != 4 && len(c.Patterns) > 0 {
 		pats = append(pats, c.Patterns...)
 	}
@@ -642,7 +651,7 @@ func TestC12(t *testing.T) {
 	// (c) arbitrary glob patterns and flag subsets on a valid file
 	setRapidChecks(pick(120, 600))
 	patGen := rapid.OneOf(
-		rapid.SampledFrom([]string{"[", "]", "*", "?", "**", "[a-", "\\", "a.yaml/", "/", "", ".", "..", "*.yaml", "a?yaml", "[!a].yaml", "{a,b}.yaml", "out", "out/*", "\x00", strings.Repeat("a", 300), "~", "$HOME", "a.yaml ", " a.yaml"}),
+		rapid.SampledFrom([]string{"[", "]", "*", "?", "**", "[a-", "\\", "a.yaml/", "/", "", ".", "..", "*.yaml", "a?yaml", "[!a].yaml", "{a,b}.yaml", "out", "out/*", "dangling.yaml", "loop.yaml", "d*.yaml", "*", ".*", "l*", "sub.yaml", "sub.yaml/*", "\x00", strings.Repeat("a", 300), "~", "$HOME", "a.yaml ", " a.yaml"}),
 		rapid.StringMatching(`[a-z*?\[\]\\./-]{0,12}`),
 	)
 	rapid.Check(t, func(rt *rapid.T) {
